@@ -34,6 +34,7 @@ type InclusiveRangeIterator struct {
 	stepNegative bool
 	step         IntegerValue
 	end          IntegerValue
+	zero         IntegerValue
 }
 
 var _ ValueIterator = &InclusiveRangeIterator{}
@@ -61,6 +62,7 @@ func NewInclusiveRangeIterator(
 		stepNegative: bool(stepNegative),
 		step:         stepValue,
 		end:          endValue,
+		zero:         zeroValue,
 	}
 	i.next = i.validate(startValue, context)
 
@@ -73,6 +75,14 @@ func (i *InclusiveRangeIterator) Next(context ValueIteratorContext) Value {
 		return nil
 	}
 
+	// If the end is closer than one step, the iteration is over.
+	// The sum must not be computed in that case: it might not be representable in the element type,
+	// i.e. overflow/underflow, or wrap around for Word types.
+	if i.stepExceedsEnd(valueToReturn, context) {
+		i.next = nil
+		return valueToReturn
+	}
+
 	// Update the next value.
 	nextValueToReturn, ok := valueToReturn.Plus(context, i.step).(IntegerValue)
 	if !ok {
@@ -82,6 +92,26 @@ func (i *InclusiveRangeIterator) Next(context ValueIteratorContext) Value {
 	i.next = i.validate(nextValueToReturn, context)
 
 	return valueToReturn
+}
+
+// stepExceedsEnd returns true if adding the step to the given element (which is not beyond the end)
+// would go beyond the end, in the cases where the sum might leave the range of the element type.
+func (i *InclusiveRangeIterator) stepExceedsEnd(
+	element IntegerValue,
+	context ValueIteratorContext,
+) bool {
+	// The sum of two values of different signs is always representable.
+	elementNegative := bool(element.Less(context, i.zero))
+	if elementNegative != i.stepNegative {
+		return false
+	}
+
+	// The element and the end are on the same side of zero, so the difference is representable.
+	remaining := i.end.Minus(context, element)
+	if i.stepNegative {
+		return bool(remaining.Greater(context, i.step))
+	}
+	return bool(remaining.Less(context, i.step))
 }
 
 func (i *InclusiveRangeIterator) validate(
